@@ -589,4 +589,8 @@ func main() {
 		fmt.Fprintln(os.Stderr, "srcfacts: effects:", err)
 		os.Exit(2)
 	}
+	if err := emitSrc(repo, filepath.Join(filepath.Dir(out), "Src.v")); err != nil {
+		fmt.Fprintln(os.Stderr, "srcfacts: golite:", err)
+		os.Exit(2)
+	}
 }
